@@ -162,7 +162,15 @@ func TestProp_FileStages(t *testing.T) {
 			}
 		}
 		spec := &vlib.RunSpec{Mode: "file", FileYAML: yaml, FileDir: dir, ScenarioFn: scenario, WaitTimeout: 20 * time.Second}
-		if _, err := vlib.Execute(spec); err != nil {
+		// one case in three through `run file <path>`: the CLI's own mapping of the file's limits
+		viaCLI := rapid.IntRange(0, 2).Draw(rt, "viaCLI") == 0
+		var err error
+		if viaCLI {
+			_, err = vlib.ExecuteCLI(spec)
+		} else {
+			_, err = vlib.Execute(spec)
+		}
+		if err != nil {
 			rt.Fatalf("VERIF-INFRA: cannot execute %s: %v", desc, err)
 		}
 		straggle := false
@@ -183,6 +191,9 @@ func TestProp_FileStages(t *testing.T) {
 		}
 		if usersThenRate {
 			cls = append(cls, "users-stage-then-rate-stage")
+		}
+		if viaCLI {
+			cls = append(cls, "through-the-cli")
 		}
 		var hws []int64
 		for _, p := range probes {
